@@ -1,5 +1,5 @@
 (* Proofs/ProxyBackends_disk.v — the bridge from the real proxies to the disk-level theorems of C12:
-   every outcome of httpproxy.Get / grpcproxy.Get that returns IS one of the backend behaviours
+   every outcome of httpproxy.Get / grpcproxy.Get IS one of the backend behaviours
    [bget] of Model/Disk.v ([to_bget]); so the theorems of Properties/C12.v, which hold for every
    [bget], hold for disk.Cache with a real proxy attached.  Composed with [get_faults_safe] this gives
    the end-to-end statement: a hit for a locally absent key means the backend answered with a usable
@@ -10,24 +10,28 @@ From BR Require Import Base.Prelude Model.LRU Proofs.LRU_inv Model.Disk Proofs.D
 Open Scope list_scope.
 Open Scope Z_scope.
 
-(* every returning outcome is a [bget]; only the panic is not *)
-Lemma to_bget_total ob o : (exists b, to_bget ob o = Some b) \/ exists site, o = PPanic site.
-Proof. destruct o; cbn; eauto. Qed.
+(* every outcome of a real proxy is a [bget]: errors are [BErr], misses [BMiss], and a found object
+   keeps its announced size, delivered length and stream verdict *)
+Lemma to_bget_spec ob o :
+  match o with
+  | PErr => to_bget ob o = BErr
+  | PMiss => to_bget ob o = BMiss
+  | PFound s d e => to_bget ob o = BFound s (o_full ob) d e 1 (o_logical ob)
+  end.
+Proof. destruct o; reflexivity. Qed.
 
 Lemma to_bget_found_inv ob o cl full delivered berr cid logical :
-  to_bget ob o = Some (BFound cl full delivered berr cid logical) ->
+  to_bget ob o = BFound cl full delivered berr cid logical ->
   o = PFound cl delivered berr /\ full = o_full ob /\ logical = o_logical ob.
 Proof. destruct o; cbn; intros H; inversion H; subst. repeat split. Qed.
 
-Lemma to_bget_ok ob o b : to_bget ob o = Some b ->
-  (forall s d e, o = PFound s d e -> 0 <= d) -> bget_ok b.
-Proof.
-  destruct o; cbn; intros H Hd; inversion H; subst; cbn; try exact I. eapply Hd. reflexivity.
-Qed.
+Lemma to_bget_ok ob o :
+  (forall s d e, o = PFound s d e -> 0 <= d) -> bget_ok (to_bget ob o).
+Proof. destruct o; cbn; intros Hd; try exact I. eapply Hd. reflexivity. Qed.
 
 (* disk.Cache over httpproxy *)
-Lemma http_disk_hit_validated c d k hash sz off zstd rp ob b rnd d' s cid flen :
-  to_bget ob (http_get (c_zstd c && kind_eqb k CAS) rp) = Some b ->
+Lemma http_disk_hit_validated c d k hash sz off zstd rp ob rnd d' s cid flen :
+  let b := to_bget ob (http_get (c_zstd c && kind_eqb k CAS) rp) in
   peek (lookup_key k hash) (lru d) = None ->
   exec c d (RGet k hash sz off zstd b rnd) = (d', Some (GetHit s cid flen)) ->
   get_shortcut k hash sz \/
@@ -36,23 +40,23 @@ Lemma http_disk_hit_validated c d k hash sz off zstd rp ob b rnd d' s cid flen :
              else h_cl r = CLInt s) /\
             fetch_good c k sz s b /\ sz <= c_maxproxy c.
 Proof.
-  intros Hb Hp He.
-  destruct (get_faults_safe _ _ _ _ _ _ _ _ _ _ _ _ _ Hp He) as [(Hs & _)|(cl & full & dl & cid' & lg & -> & Hg & -> & _ & -> & _ & Hm)];
+  intros b Hp He.
+  destruct (get_faults_safe _ _ _ _ _ _ _ _ _ _ _ _ _ Hp He) as [(Hs & _)|(cl & full & dl & cid' & lg & Hb & Hg & -> & _ & -> & _ & Hm)];
     [left; exact Hs|right].
-  apply to_bget_found_inv in Hb. destruct Hb as (Ho & _ & _).
-  apply http_get_found_inv in Ho. destruct Ho as (r & -> & Hst & -> & Hbe & Hv).
+  pose proof Hb as Hb'. unfold b in Hb'. apply to_bget_found_inv in Hb'. destruct Hb' as (Ho & _ & _).
+  apply http_get_found_inv in Ho. destruct Ho as (r & -> & Hst & Hd & Hbe & Hv).
   exists r. split; [reflexivity|]. split; [exact Hst|]. split; [symmetry; exact Hbe|].
-  split; [reflexivity|]. split; [exact Hv|]. split; [exact Hg|exact Hm].
+  split; [exact Hd|]. split; [exact Hv|]. split; [exact Hg|exact Hm].
 Qed.
 
-Lemma http_fault_never_hit c d k hash sz off zstd rp ob b rnd d' s cid flen :
+Lemma http_fault_never_hit c d k hash sz off zstd rp ob rnd d' s cid flen :
   http_fault (c_zstd c && kind_eqb k CAS) rp ->
-  to_bget ob (http_get (c_zstd c && kind_eqb k CAS) rp) = Some b ->
   peek (lookup_key k hash) (lru d) = None -> ~ get_shortcut k hash sz ->
-  exec c d (RGet k hash sz off zstd b rnd) <> (d', Some (GetHit s cid flen)).
+  exec c d (RGet k hash sz off zstd (to_bget ob (http_get (c_zstd c && kind_eqb k CAS) rp)) rnd)
+    <> (d', Some (GetHit s cid flen)).
 Proof.
-  intros F Hb Hp Hn He.
-  destruct (http_disk_hit_validated _ _ _ _ _ _ _ _ _ _ _ _ _ _ _ Hb Hp He) as [H|(r & -> & Hst & _ & _ & Hv & _)];
+  intros F Hp Hn He.
+  destruct (http_disk_hit_validated _ _ _ _ _ _ _ _ _ _ _ _ _ _ Hp He) as [H|(r & -> & Hst & _ & _ & Hv & _)];
     [contradiction|].
   cbn [http_fault] in F. destruct F as [F|F]; [lia|].
   destruct (c_zstd c && kind_eqb k CAS).
@@ -61,8 +65,8 @@ Proof.
 Qed.
 
 (* disk.Cache over grpcproxy *)
-Lemma grpc_disk_hit_validated c d k hash hex_ok sz off zstd g ob b rnd d' s cid flen :
-  to_bget ob (grpc_get k hex_ok sz g) = Some b ->
+Lemma grpc_disk_hit_validated c d k hash hex_ok sz off zstd g ob rnd d' s cid flen :
+  let b := to_bget ob (grpc_get k hex_ok sz g) in
   peek (lookup_key k hash) (lru d) = None ->
   exec c d (RGet k hash sz off zstd b rnd) = (d', Some (GetHit s cid flen)) ->
   get_shortcut k hash sz \/
@@ -73,42 +77,35 @@ Lemma grpc_disk_hit_validated c d k hash hex_ok sz off zstd g ob b rnd d' s cid 
    | _ => g_ac g = ACOk s /\ flen = s
    end /\ fetch_good c k sz s b /\ sz <= c_maxproxy c).
 Proof.
-  intros Hb Hp He.
-  destruct (get_faults_safe _ _ _ _ _ _ _ _ _ _ _ _ _ Hp He) as [(Hs & _)|(cl & full & dl & cid' & lg & -> & Hg & -> & _ & -> & _ & Hm)];
+  intros b Hp He.
+  destruct (get_faults_safe _ _ _ _ _ _ _ _ _ _ _ _ _ Hp He) as [(Hs & _)|(cl & full & dl & cid' & lg & Hb & Hg & -> & _ & -> & _ & Hm)];
     [left; exact Hs|right].
-  apply to_bget_found_inv in Hb. destruct Hb as (Ho & _ & _).
+  pose proof Hb as Hb'. unfold b in Hb'. apply to_bget_found_inv in Hb'. destruct Hb' as (Ho & _ & _).
   apply grpc_get_found_inv in Ho. split; [|split; assumption].
   destruct k.
-  - destruct Ho as (Ha & -> & _). split; [exact Ha|reflexivity].
-  - destruct Ho as (Ho & -> & He' & Hs). split; [exact Ho|]. split; [symmetry; exact He'|]. split; [reflexivity|exact Hs].
-  - destruct Ho as (Ha & -> & _). split; [exact Ha|reflexivity].
+  - destruct Ho as (Ha & Hd & _). split; [exact Ha|exact Hd].
+  - destruct Ho as (Ho & Hd & He' & Hs). split; [exact Ho|]. split; [symmetry; exact He'|]. split; [exact Hd|exact Hs].
+  - destruct Ho as (Ha & Hd & _). split; [exact Ha|exact Hd].
 Qed.
 
-Lemma grpc_fault_never_hit c d k hash hex_ok sz off zstd g ob b rnd d' s cid flen :
+Lemma grpc_fault_never_hit c d k hash hex_ok sz off zstd g ob rnd d' s cid flen :
   grpc_fault k hex_ok sz g ->
-  to_bget ob (grpc_get k hex_ok sz g) = Some b ->
   peek (lookup_key k hash) (lru d) = None -> ~ get_shortcut k hash sz ->
-  exec c d (RGet k hash sz off zstd b rnd) <> (d', Some (GetHit s cid flen)).
+  exec c d (RGet k hash sz off zstd (to_bget ob (grpc_get k hex_ok sz g)) rnd) <> (d', Some (GetHit s cid flen)).
 Proof.
-  intros F Hb Hp Hn He.
-  destruct (grpc_disk_hit_validated _ _ _ _ _ _ _ _ _ _ _ _ _ _ _ _ Hb Hp He) as [H|(Hk & _)]; [contradiction|].
-  destruct k.
-  - destruct F as (c0 & F). destruct Hk as (Hk & _). congruence.
-  - destruct Hk as (Ho & _ & _ & Hs). destruct F as [F|(Hneg & F)]; [congruence|].
-    destruct (sz <? 0) eqn:Es; [|lia]. destruct Hs as (Hh & Hf).
-    destruct F as [F|[(c0 & F)|(st & d0 & F & Hst)]]; try congruence;
-      rewrite Hf in F; inversion F; lia.
-  - destruct F as (c0 & F). destruct Hk as (Hk & _). congruence.
+  intros F Hp Hn He.
+  destruct (grpc_get_fault_degrades k hex_ok sz g F) as [E|E]; rewrite E in He; cbn [to_bget] in He;
+    destruct (get_faults_safe _ _ _ _ _ _ _ _ _ _ _ _ _ Hp He) as [(Hs & _)|(cl & full & dl & cid' & lg & Hb & _)];
+    try contradiction; discriminate.
 Qed.
 
 (* a stream that errs (HTTP body cut short of its Content-Length, gRPC status after some messages)
    never gives a hit, whatever was delivered *)
-Lemma stream_error_never_hit c d k hash sz off zstd ob size delivered b rnd d' s cid flen :
-  to_bget ob (PFound size delivered true) = Some b ->
+Lemma stream_error_never_hit c d k hash sz off zstd ob size delivered rnd d' s cid flen :
   peek (lookup_key k hash) (lru d) = None -> ~ get_shortcut k hash sz ->
-  exec c d (RGet k hash sz off zstd b rnd) <> (d', Some (GetHit s cid flen)).
+  exec c d (RGet k hash sz off zstd (to_bget ob (PFound size delivered true)) rnd) <> (d', Some (GetHit s cid flen)).
 Proof.
-  intros Hb Hp Hn He. cbn in Hb. inversion Hb; subst b.
+  intros Hp Hn He. cbn [to_bget] in He.
   destruct (get_faults_safe _ _ _ _ _ _ _ _ _ _ _ _ _ Hp He) as [(Hs & _)|(cl & full & dl & cid' & lg & Hbb & _)];
     [contradiction|]. discriminate.
 Qed.
